@@ -70,13 +70,8 @@ class BaseRandomLineAccessFile(collections.abc.Sequence, Generic[C], ABC):
         if self.closed:
             raise RuntimeError("Firstly open the file.")
 
-        if self._dirty:
-            for n in range(len(self)):
-                yield self._get_item(n)
-        else:
-            self._file_seek(0)
-            for n in range(len(self)):
-                yield self._read_next_line()
+        for n in range(len(self)):
+            yield self._get_item(n)
 
     @abstractmethod
     def _file_seek(self, offset: int):
